@@ -4,4 +4,4 @@ left-hand side is regenerated from /repo on every run.  An edit of the function 
 obligation; the property's search then looks for a concrete failing input. -/
 import FFVerif.Gen.Pins
 
-theorem FFVerif.Pins.pinMapIdentifiers : FFVerif.Gen.pinMapIdentifiers = "if mapping is None: remapped_identifiers = identifiers sort_idx = np.arange(len(identifiers)) else: remapped_identifiers = np.array([mapping[identifier] for identifier in identifiers]) sort_idx = np.argsort(remapped_identifiers) ; return (remapped_identifiers, sort_idx)" := rfl
+theorem FFVerif.Pins.pinMapIdentifiers : FFVerif.Gen.pinMapIdentifiers = "if mapping is None: remapped_identifiers = identifiers sort_idx = np.arange(len(identifiers)) else: try: remapped_identifiers = np.array([mapping[identifier] for identifier in identifiers]) except KeyError as err: raise ValueError(f'Identifier mapping has no entry for identifier {err}.') from err sort_idx = np.argsort(remapped_identifiers) ; return (remapped_identifiers, sort_idx)" := rfl
